@@ -113,7 +113,7 @@ func toPts(l []ipt) []geom.Point {
 }
 
 // judgeCurve checks the output of simplifying `in` (as a line or ring).
-func judgeCurve(in, out []geom.Point, tol float64, wantSimple bool, inI []ipt) (string, string) {
+func judgeCurve(in, out []geom.Point, tol float64, wantSimple bool, inI []ipt, outScale float64) (string, string) {
 	n := len(in)
 	if n == 0 {
 		if len(out) != 0 {
@@ -181,7 +181,7 @@ func judgeCurve(in, out []geom.Point, tol float64, wantSimple bool, inI []ipt) (
 		// map output back to integer points
 		oi := make([]ipt, len(out))
 		for i, p := range out {
-			oi[i] = ipt{int64(p.X), int64(p.Y)}
+			oi[i] = ipt{int64(math.Round(p.X * outScale)), int64(math.Round(p.Y * outScale))}
 		}
 		if !simple(oi) {
 			return "simple-input-non-simple-output", fmt.Sprint(out)
@@ -217,7 +217,7 @@ func enumerate(visit func(idx int64, mk func() Case)) {
 	var idx int64
 	emit := func(mk func() Case) { visit(idx, mk); idx++ }
 	ps := pointSet()
-	maxLen := 5
+	maxLen := 6
 	if tier == "thorough" {
 		maxLen = 6
 	}
@@ -237,6 +237,29 @@ func enumerate(visit func(idx int64, mk func() Case)) {
 						t /= len(ps)
 					}
 					return Case{Kind: "line", Seq: seq, Tol: tol}
+				})
+			}
+		}
+	}
+	// the same point set scaled by 1e-3 (coordinates 0..0.3, tolerances scaled):
+	// intersection tests with an absolute or mixed epsilon behave differently at
+	// this scale
+	for l := 3; l <= 5; l++ {
+		total := 1
+		for i := 0; i < l; i++ {
+			total *= len(ps)
+		}
+		for s := 0; s < total; s++ {
+			for _, tol := range []float64{0.04, 0.1, 0.3} {
+				l, s, tol := l, s, tol
+				emit(func() Case {
+					seq := make([]int, l)
+					t := s
+					for i := range seq {
+						seq[i] = t % len(ps)
+						t /= len(ps)
+					}
+					return Case{Kind: "line-small", Seq: seq, Tol: tol}
 				})
 			}
 		}
@@ -328,16 +351,21 @@ func lenClass(n int) string {
 func execute(c Case) (string, string, bool) {
 	ps := pointSet()
 	switch c.Kind {
-	case "line", "grid-line":
+	case "line", "grid-line", "line-small":
 		li := make([]ipt, len(c.Seq))
 		for i, k := range c.Seq {
-			if c.Kind == "line" {
+			if c.Kind != "grid-line" {
 				li[i] = ps[k]
 			} else {
 				li[i] = ipt{int64(k % 4), int64(k / 4)}
 			}
 		}
 		in := geom.LineString(toPts(li))
+		if c.Kind == "line-small" {
+			for i := range in {
+				in[i].X, in[i].Y = in[i].X/1000, in[i].Y/1000
+			}
+		}
 		cp := append(geom.LineString{}, in...)
 		var res geom.Geom
 		if p := try(func() { res = in.Simplify(c.Tol) }); p != "" {
@@ -352,8 +380,12 @@ func execute(c Case) (string, string, bool) {
 				return "LineString|input-modified", "", false
 			}
 		}
-		wantSimple := c.Kind == "line" && len(li) >= 2 && simple(li)
-		sym, det := judgeCurve(in, out, c.Tol, wantSimple, li)
+		wantSimple := c.Kind != "grid-line" && len(li) >= 2 && simple(li)
+		sc := 1.0
+		if c.Kind == "line-small" {
+			sc = 1000
+		}
+		sym, det := judgeCurve(in, out, c.Tol, wantSimple, li, sc)
 		if sym != "" {
 			return "LineString|" + sym + "|" + lenClass(len(li)), fmt.Sprintf("input %v tol %g output %s", in, c.Tol, det), len(out) < len(in)
 		}
@@ -384,7 +416,7 @@ func execute(c Case) (string, string, bool) {
 						return "Polygon|input-modified", "", false
 					}
 				}
-				if sym, det := judgeCurve(in[i], out[i], c.Tol, false, nil); sym != "" {
+				if sym, det := judgeCurve(in[i], out[i], c.Tol, false, nil, 1); sym != "" {
 					return "Polygon|" + sym + "|" + lenClass(len(in[i])), fmt.Sprintf("ring %d of %v tol %g output %s", i, in, c.Tol, det), false
 				}
 				if len(out[i]) < len(in[i]) {
@@ -500,7 +532,7 @@ func main() {
 		}
 	}
 	r := report.New("C13", tier, "model_checking")
-	r.Rule = "E1 (isolated workers, 2 GiB address-space limit, 60 s silence horizon): every vertex sequence of length 0..5 (thorough 0..6 over 16 points) over a 12-point set with no three points collinear (verified exactly) x tolerances {0,40,100,150,300,1e9}; every sequence of length <= 4 over the plain 4x4 integer grid x 4 tolerances (termination / subsequence / tolerance clauses only); 7 polygons (holes, unclosed, degenerate rings) x 6 tolerances and all ordered pairs as MultiPolygon; two-member MultiLineStrings. Oracle: terminates; output is an order-preserving subsequence keeping first and last vertex; an embedding exists in which every dropped vertex is within tol of its replacing segment; exactly simple input => exactly simple output; input unchanged; multi members equal the member simplified alone. Non-trivial = calls that drop at least one vertex."
+	r.Rule = "E1 (isolated workers, 2 GiB address-space limit, 60 s silence horizon): every vertex sequence of length 0..6 (thorough: over 16 points) over a 12-point set with no three points collinear (verified exactly) x tolerances {0,40,100,150,300,1e9}; every sequence of length 3..5 over the same point set scaled by 1e-3 x 3 scaled tolerances; every sequence of length <= 4 over the plain 4x4 integer grid x 4 tolerances (termination / subsequence / tolerance clauses only); 7 polygons (holes, unclosed, degenerate rings) x 6 tolerances and all ordered pairs as MultiPolygon; two-member MultiLineStrings. Oracle: terminates; output is an order-preserving subsequence keeping first and last vertex; an embedding exists in which every dropped vertex is within tol of its replacing segment; exactly simple input => exactly simple output; input unchanged; multi members equal the member simplified alone. Non-trivial = calls that drop at least one vertex."
 	sum := fault.Sweep(r, 16, 2<<20, 60*time.Second, func(idx int64) (string, interface{}) {
 		var sig string
 		var det interface{}
